@@ -171,3 +171,30 @@ Theorem C17_cached_packet_type_refuted :
                            /\ fw_receive h (send_cached h) = [Some 72%Z; None].
 Proof. exact send_cached_refuted. Qed.
 Print Assumptions C17_cached_packet_type_refuted.
+
+(* Wave 11 — link state.  The programs of C17_mc_exit_ends_with_stop / C17_stream_period / C17_hl_exit_ends_with_stop contain
+   OLink b / HLink b at any position (cf.is_connected() changes during the body), so those theorems hold for EVERY history of
+   the connection flag: HEAD reads it only in take_off().  An __exit__ that lands only while connected does not have the
+   property: link lost in the body => context left flying, thread alive, a hover setpoint as the last call. *)
+Theorem C17_guarded_exit_refuted :
+  exists s, run_mc_guarded E0 5 (3 # 10) [OLink false] [] = Exited None s /\ flying s = true /\ thr s <> None
+            /\ (exists t vx vy yaw z vz rest, log s = EHover t vx vy yaw z vz :: rest).
+Proof. exact guarded_exit_refuted. Qed.
+Print Assumptions C17_guarded_exit_refuted.
+
+(* Wave 12 — stalling sends.  _SetPointThread.stop() = put(terminate) ; join() with NO bound.  Whatever time each of the
+   thread's pending sends takes (the one in flight on a stalled link, and one per setpoint event queued behind it), when
+   stop() returns the thread has returned: every pending hover setpoint precedes the stop command in the commander's call
+   order, and nothing follows the priority release. *)
+Theorem C17_stop_joins_thread_for_every_stall : forall durs : list nat,
+  land_trace None durs = map (fun c => HsHover (snd c)) (completions O O durs) ++ [HsStop; HsRelease]
+  /\ thread_alive_after_stop None durs = false.
+Proof. exact join_unbounded_orders. Qed.
+Print Assumptions C17_stop_joins_thread_for_every_stall.
+
+(* ... while a join bounded by two update periods lets land() overtake a thread stuck in a send: stop, release, hover, hover *)
+Theorem C17_bounded_join_refuted :
+  land_trace (Some 4%nat) [6; 1]%nat = [HsStop; HsRelease; HsHover 0; HsHover 1]
+  /\ thread_alive_after_stop (Some 4%nat) [6; 1]%nat = true.
+Proof. exact join_bounded_refuted. Qed.
+Print Assumptions C17_bounded_join_refuted.
